@@ -291,7 +291,7 @@ def file_class(path):
     """coarse class of a data-directory file (used to label crash points with spec actions)"""
     b = os.path.basename(path)
     for suf, cls in ((".csg", "csg"), (".cmi", "cmi"), (".bsu", "bsu"), (".sst.tmp", "ssttmp"), (".sst", "sst"), (".sfm.tmp", "sfmtmp"), (".sfm", "sfm"),
-                     (".pqmr", "pqmr"), (".crup", "rup"), (".suffix", "suffix"), ("segmeta.json", "segmeta"), (".strl", "str"),
+                     (".pqmr", "pqmr"), (".crup", "rup"), (".suffix", "suffix"), ("segmeta.json", "segmeta"), (".strm.tmp", "strmtmp"), (".strm", "strm"), (".strl", "strl"),
                      (".wal", "wal"), (".tso", "tso"), (".tsg", "tsg"), (".mbsu", "mbsu"), (".mnm", "mnm"), ("metricmeta.json", "metricmeta"),
                      ("segment-validity.json", "validity"), (".srt", "sortidx")):
         if b.endswith(suf):
